@@ -980,6 +980,12 @@ static int write_char(void *context, cif_value_tp *char_value, int allow_text) {
             return CIF_DISALLOWED_VALUE;
         }
 
+        /* CIF 2.0 output, too, must consist of allowed characters (CIF 1.1 output is validated below) */
+        if (!IS_CIF1(context) && cif_text_has_disallowed_chars(text)) {
+            free(text);
+            return CIF_DISALLOWED_CHAR;
+        }
+
         /* extra_space accounts for space consumed by preceding output that must not be separated from the current */
         /* int32_t extra_space = (IS_SEPARATE_VALUES(context) ? 0 : LAST_COLUMN(context)); */
 
